@@ -167,9 +167,9 @@ class C05(Oracle):
                 exp = models.m_concat([ctx.pre] + oo)
             _expect(ctx.post, exp, k)
             if k == 'join' and len(ctx.op['xs']) >= 2:
-                vals = [ctx.world.res(d) for d in ctx.op['xs']]
-                # operands may have been (wrongly) changed by the join itself; the fold is computed
-                # on the same live operands, the relation above already pinned the expected cells
+                # the operand objects as resolved before the call (the result may since have been
+                # stored over one of their slots)
+                vals = [ctx.operands[repr(sorted(d.items()))][0] for d in ctx.op['xs']]
                 acc = vals[0] if not (isinstance(vals[0], str) and not isinstance(vals[0], AnsiStr)) else AnsiString(vals[0])
                 for x in vals[1:]:
                     acc = acc + x
@@ -425,25 +425,33 @@ class C12(Oracle):
         _own_preamble(ctx, 'fmt')
         spec = ops.compose_spec(sp)
         # never changes s
-        after = ctx.post_all[ctx.recv_slot]
-        require(after is not None and after.key() == pre.key(), 'fmt.receiver_unchanged', spec=spec)
+        after = observe(ctx.recv)
+        require(after.key() == pre.key(), 'fmt.receiver_unchanged', spec=spec, before=pre.to_json(), after=after.to_json())
         exp = models.m_spec(pre, sp or {})
         flags = tuple(op['flags']) if op.get('flags') is not None else None
         out = ctx.result
         require(isinstance(out, str), 'fmt.returns_str', got=type(out).__name__)
-        if '\x1b' not in exp.text and codes.all_wf(exp.cells):
-            display.check_rendering(out, exp.text, display.expected_styles(exp.cells), flags, 'fmt.display')
-        else:
-            ctx.world.count('skipped:fmt_display_not_evaluable')
-        # equals padding + apply_formatting done on a copy
+        # the same padding + apply_formatting done on a copy, in the documented order
         how, width, fill, ext, ansi = models.spec_reading(sp or {})
+        has_ansi = bool(sp and sp.get('ansi'))
         c = AnsiString(ctx.recv)
-        if not ext and sp and sp.get('ansi') is not None and atoms_part_nonempty(sp):
+        if not ext and has_ansi:
             c.apply_formatting(ops.ansi_part(sp['ansi']))
         if width:
             getattr(c, how)(width, fill, inplace=True, extend_formatting=ext)
-        if ext and sp and sp.get('ansi') is not None and atoms_part_nonempty(sp):
+        if ext and has_ansi:
             c.apply_formatting(ops.ansi_part(sp['ansi']))
+        oc = observe(c)
+        # ... must be the padded text with the ansi part gained exactly where the spec says
+        require(oc.text == exp.text, 'fmt.text', spec=spec, want=exp.text, got=oc.text)
+        for i in range(len(exp.text)):
+            require(Counter(oc.cells[i]) == Counter(exp.cells[i]), 'fmt.cells', spec=spec, index=i,
+                    want=list(exp.cells[i]), got=list(oc.cells[i]))
+        # the output, read by the terminal, shows that copy
+        if display.evaluable(oc):
+            display.check_rendering(out, oc.text, display.expected_styles(oc.cells), flags, 'fmt.display')
+        else:
+            ctx.world.count('skipped:fmt_display_not_evaluable')
         if flags is None:
             want = str(c)
         else:
@@ -712,6 +720,14 @@ class C08(Oracle):
                            role='operand' if any(('slot' in d and d['slot'] % len(w.vals) == i)
                                                  for d in engine_operand_descs(ctx.op)) else
                                 ('receiver' if i == ctx.recv_slot else 'unrelated'))
+        # non-in-place methods and every AnsiStr method leave the receiver unchanged
+        if ctx.recv is not None and not ctx.ip and ctx.pre is not None:
+            if ctx.recv_post is None:
+                raise Fail('receiver_became_unobservable', op=ctx.op, before=ctx.pre.to_json(),
+                           exc='%s: %s' % (type(ctx.recv_post_exc).__name__, ctx.recv_post_exc))
+            require(ctx.recv_post.key() == ctx.pre.key(), 'not_inplace_leaves_receiver_unchanged', op=ctx.op,
+                    before=ctx.pre.to_json(), after=ctx.recv_post.to_json(), render_before=ctx.pre.render,
+                    render_after=ctx.recv_post.render)
         if ctx.exc is not None or ctx.timeout or ctx.kind in ('bad',):
             return
         k = ctx.kind
